@@ -512,7 +512,7 @@ theorem step_launch_inv (env : Env) (cfg : Config) (A : Meta → Prop) (w : Worl
       refine ⟨hsettled, ?_⟩
       by_cases hinst : ∃ chan sc, op = .update chan sc ∧ (updateCore env c (w.base c) w.disk sc).2.1 = .installed
       · obtain ⟨chan, sc, rfl, hi⟩ := hinst
-        obtain ⟨o, out, ho, _, hslots⟩ := updateCore_install_spec env c (w.base c) w.disk sc hst hi
+        obtain ⟨o, out, ho, _, hslots, _⟩ := updateCore_install_spec env c (w.base c) w.disk sc hst hi
         -- the installed record is the selection afterwards, and no banned number is selected
         have hnotF : o.number ∉ F := by
           obtain ⟨o', out', ho', _, _, hnx⟩ := update_installed_sound env c (w.base c) w.disk sc hst hi
